@@ -151,7 +151,7 @@ MUTATIONS = [
     ("VALIDATE product2 (labelled): Opinion::new instead of normalized: ill-typed output becomes a hole", "mul/labeled.rs",
      "let b = MArrD2::<D0, D1, V>::from_iter(p_iter.zip(&a).map(|(p, &a)| p - a * u));\n        Opinion::normalized(b, u, a)",
      "let b = MArrD2::<D0, D1, V>::from_iter(p_iter.zip(&a).map(|(p, &a)| p - a * u));\n        Opinion::new(b, u, a)",
-     ("exact", 3, {"gen_product2_labeled_eq"})),
+     ("exact", 3, {"gen_product2_labeled_eq", "gen_merge_cond2_labeled_eq"})),
     ("compute_simlex: harmless commutation in temp", "mul.rs",
      "let temp = lhs_u + rhs_u - lhs_u * rhs_u;", "let temp = lhs_u + rhs_u - rhs_u * lhs_u;",
      "gen_compute_simlex_eq"),
@@ -203,7 +203,8 @@ MUTATIONS = [
      "let u_yx_sum = T::indexes().map(|x| u_yx[x]).sum::<V>();",
      "let u_yx_sum = T::indexes().rev().map(|x| u_yx[x]).sum::<V>();",
      ("exact", 3, {"gen_inverse_eq", "gen_abduce_with_eq", "gen_abduce_eq", "gen_OpinionRef_abduce_with_eq",
-                   "gen_OpinionRef_abduce_eq", "gen_Opinion_abduce_with_eq", "gen_Opinion_abduce_eq"})),
+                   "gen_OpinionRef_abduce_eq", "gen_Opinion_abduce_with_eq", "gen_Opinion_abduce_eq",
+                   "gen_merge_cond2_unlabeled_eq", "gen_merge_cond2_labeled_eq"})),
 ]
 
 
